@@ -459,6 +459,7 @@ fn main() {
     let ncases = ((if thorough { 60000. } else { 3000. }) * scale) as u64;
     let szs: Vec<usize> = if thorough { vec![1, 2, 3, 4, 5, 8, 13, 27, 50, 100, 200, 400] } else { vec![1, 2, 3, 4, 5, 8, 13, 27, 50, 100] };
     let giant: Vec<usize> = if thorough { vec![3000, 12000, 12000, 25000] } else { vec![3000, 12000] };
+    let nwedge: u64 = std::env::var("VERIF_WEDGES").ok().and_then(|s| s.parse().ok()).unwrap_or(if thorough { 20000 } else { 1500 });
     let next = AtomicU64::new(0);
     let merged: Mutex<Vec<Report>> = Mutex::new(vec![]);
     // silence the default panic message flood: one line per panic
@@ -472,8 +473,15 @@ fn main() {
                 let mut local = Report::new("C14", &tier, seed);
                 loop {
                     let k = next.fetch_add(1, Ordering::Relaxed);
-                    if k >= ncases + giant.len() as u64 {
+                    if k >= ncases + giant.len() as u64 + nwedge {
                         break;
+                    }
+                    if k >= ncases + giant.len() as u64 {
+                        // wedges: a pair of generators 3e-7 .. 1e-5 box widths apart (nearly parallel adjacent faces)
+                        let c = vcore::case::wedge_case("C14", &tier, seed, k - ncases - giant.len() as u64);
+                        one_c14("C14", &c, &mut local);
+                        local.count("wedge_inputs", 1);
+                        continue;
                     }
                     if k >= ncases {
                         // giant cells (about n faces, 2n vertices, 6n face-vertex connections), centre + two shell cells
